@@ -18,6 +18,7 @@ import (
 	"fmt"
 	"math/big"
 	"sort"
+	"strings"
 	"testing"
 	"time"
 
@@ -608,6 +609,18 @@ func TestC17_Signed(t *testing.T) {
 	hx.Check(t, hx.N(500, 8000), func(t *rapid.T) {
 		s := &sdSpec{sm2: !gen.OneIn(t, "rsa", 4), content: contentGen(2000).Draw(t, "content"), detached: gen.OneIn(t, "detached", 4), withAttrs: rapid.Bool().Draw(t, "attrs"),
 			extra: rapid.SliceOfN(rapid.Byte(), 0, 20).Draw(t, "extra")}
+		// the SET of signed attributes in every DER length form: short (< 128 bytes), 0x81 (128..255), 0x82 (256..65535) and,
+		// rarely, 0x83 - the signature covers the SET exactly as encoded
+		switch gen.Uniform(t, "attrsize", 6) {
+		case 0:
+			s.extra = gen.BytesN(rapid.IntRange(60, 170).Draw(t, "extra81")).Draw(t, "extra81b")
+		case 1:
+			s.extra = gen.BytesN(rapid.IntRange(171, 400).Draw(t, "extra82")).Draw(t, "extra82b")
+		case 2:
+			if gen.OneIn(t, "extra83", 4) {
+				s.extra = gen.BytesN(66000).Draw(t, "extra83b")
+			}
+		}
 		var otherCert *gx.Certificate
 		var otherKey interface{}
 		if s.sm2 {
@@ -729,6 +742,7 @@ func TestC17_LibrarySigner(t *testing.T) {
 		nsigners := rapid.IntRange(1, 3).Draw(t, "nsigners")
 		var der []byte
 		var err error
+		extraLen := 0
 		if p := tryB(func() {
 			var sd *gx.SignedData
 			if sd, err = gx.NewSignedData(content); err != nil {
@@ -736,7 +750,9 @@ func TestC17_LibrarySigner(t *testing.T) {
 			}
 			cfg := gx.SignerInfoConfig{}
 			if rapid.Bool().Draw(t, "extraattr") {
-				cfg.ExtraSignedAttributes = []gx.Attribute{{Type: oidExtraAttr, Value: "hello"}}
+				// (sizes that take the SET of signed attributes through the DER length forms: short, 0x81, 0x82)
+				extraLen = rapid.SampledFrom([]int{5, 5, 90, 200, 300, 1000}).Draw(t, "extralen")
+				cfg.ExtraSignedAttributes = []gx.Attribute{{Type: oidExtraAttr, Value: strings.Repeat("h", extraLen)}}
 			}
 			if err = sd.AddSigner(rsaCerts[0], rsaKeys[0], cfg); err != nil {
 				return
@@ -766,8 +782,43 @@ func TestC17_LibrarySigner(t *testing.T) {
 		if err := p7.Verify(); err != nil {
 			t.Fatalf("the library's own (RSA) signed-data does not verify: %v", err)
 		}
-		// independent check of the RSA signature over the DER SET of signed attributes is implied by
-		// the harness-built objects in TestC17_Signed; here: altering the content must break it
+		// independent check of what the library's signer wrote: the first signer's signature is an RSA PKCS#1 v1.5 / SHA-1
+		// signature over the DER encoding of its signed attributes as a SET OF (the [0] IMPLICIT tag replaced by 0x31)
+		if extraLen > 0 {
+			oidEnc, _ := asn1.Marshal(oidExtraAttr)
+			tlvs := rder.Walk(der)
+			checked := false
+			best := -1
+			for i, tl := range tlvs {
+				// the innermost [0] that contains the extra attribute's OID is the signer's signedAttrs
+				if tl.Tag == 0xa0 && bytes.Contains(der[tl.Start+tl.HdrLen:tl.Start+tl.HdrLen+tl.Len], oidEnc) && (best < 0 || tl.Len < tlvs[best].Len) {
+					best = i
+				}
+			}
+			if best >= 0 {
+				tl := tlvs[best]
+				body := der[tl.Start+tl.HdrLen : tl.Start+tl.HdrLen+tl.Len]
+				end := tl.Start + tl.HdrLen + tl.Len
+				var sig []byte
+				for _, nx := range tlvs[best+1:] {
+					if nx.Start >= end && nx.Tag == 0x04 {
+						sig = der[nx.Start+nx.HdrLen : nx.Start+nx.HdrLen+nx.Len]
+						break
+					}
+				}
+				set := append(rder.EncLen(0x31, len(body)), body...)
+				dg := sha1.Sum(set)
+				if verr := rsa.VerifyPKCS1v15(&rsaKeys[0].PublicKey, crypto.SHA1, dg[:], sig); verr != nil {
+					t.Fatalf("the signature the library wrote is not an RSA/SHA-1 signature over the DER SET of the %d bytes of signed attributes (extra attribute of %d bytes): %v", len(body), extraLen, verr)
+				}
+				checked = true
+			}
+			if !checked {
+				t.Fatalf("harness: signed attributes of the first signer not found")
+			}
+			R.Class(fmt.Sprintf("library_signature_checked_independently:attrs_len_form_%d", map[bool]int{true: 2, false: 1}[extraLen >= 200]))
+		}
+		// altering the content must break it
 		p7.Content = append(append([]byte{}, content...), 1)
 		if err := p7.Verify(); err == nil {
 			t.Fatalf("library signed-data still verifies with altered content")
